@@ -6,7 +6,7 @@
   `specMapRemove`, `specSetValue`, `specTextContentSet`); proofs are in `Lemmas/Fspec*.lean`
   (`clone_node` rests on the C12 development, the map updates on the C11 development).
   The PAIR reading (`Model/FspecSpec3.lean`, `FspecSpec4.lean`: `specMoveP`, `specRemoveP`, `specDetachP`,
-  `specUnwrapP`, `specReplaceP` / `specReplaceK`) is proved for EVERY forest with the invariant
+  `specUnwrapP`, `specReplaceP`) is proved for EVERY forest with the invariant
   (`Lemmas/FspecPair*.lean`, `Lemmas/FspecAll*.lean`); see the last sections.
 -/
 import XotModel.Model.FspecSpec
@@ -1023,27 +1023,14 @@ theorem C05_pair_wrap {f : Forest} {n name : Nat} (inv : f.Inv) (hok : (f.elemen
   | none => exact wrap_spec_root inv hpar hok
   | some p => exact wrap_spec_kid inv hpar hok
 
-/-- `replace`, handle for handle, every forest with the invariant, every geometry: the call is
-    `specReplaceK` — the pair reading in which the LAST merge is stated for the two former neighbours
-    of the replaced node by identity. -/
-theorem C05_pair_replace_code {f : Forest} {a b : Nat} (inv : f.Inv) (hok : (f.replace a b).2 = .ok) :
-    (f.replace a b).1 = specReplaceK a b f :=
-  replace_pairK inv hok
-
-/-- Outside the corner `selfMergeReplace` that is the pair reading the property demands. -/
-theorem C05_specReplaceK_eq_specReplaceP {f : Forest} {a b : Nat} (inv : f.Inv) (hok : (f.replace a b).2 = .ok)
-    (hcorner : selfMergeReplace f a b = false) : specReplaceK a b f = specReplaceP a b f :=
-  specReplaceK_eq_specReplaceP inv hok hcorner
-
-/-- The full-strength statement (false of the code, see the witness below). -/
-def C05_pair_replaceStatement : Prop :=
-  ∀ (f : Forest) (a b : Nat), f.Inv → (f.replace a b).2 = .ok → (f.replace a b).1 = specReplaceP a b f
-
-/-- `replace` against the pair reading of the property; the extra hypothesis is exactly the boundary
-    of finding `C05:replace-selfmerge-leaves-adjacent-text`. -/
-theorem C05_pair_replace_partial {f : Forest} {a b : Nat} (inv : f.Inv) (hok : (f.replace a b).2 = .ok)
-    (hcorner : selfMergeReplace f a b = false) : (f.replace a b).1 = specReplaceP a b f :=
-  replace_pair_partial inv hok hcorner
+/-- `replace` against the pair reading of the property, FULL strength: every forest with the
+    invariant (adjacent text nodes allowed), every geometry, handle for handle.  (Until xot 609b613
+    this failed in the corner `Spec.selfMergeReplace` — known finding
+    `C05:replace-selfmerge-leaves-adjacent-text`, now fixed: the last consolidation of `replace` looks
+    from the node that followed the replaced node, see the example below.) -/
+theorem C05_pair_replace {f : Forest} {a b : Nat} (inv : f.Inv) (hok : (f.replace a b).2 = .ok) :
+    (f.replace a b).1 = specReplaceP a b f :=
+  replace_pair inv hok
 
 /-- `<e>x b p <a/> z</e>` with the text nodes `x`, `b`, `p`, `z` separate (consolidation was off when
     they were appended, and is on again). -/
@@ -1051,29 +1038,27 @@ def selfReplaceWitness : Forest :=
   { roots := [.node 0 (.element 2) [.node 1 (.text ['x']) [], .node 2 (.text ['b']) [], .node 3 (.text ['p']) [],
       .node 4 (.element 3) [], .node 5 (.text ['z']) []]], next := 6, consolidation := true, everOff := true }
 
-/-- The corner: `replace(a, b)`.  `b` leaves: `x` and `p` are merged (`p` disappears); `b`, put in the
-    place of `a`, is merged into `x` — which now stands next to `z`.  xot remembered `p`, finds it
-    removed and stops: the result holds the adjacent text nodes `xpb` and `z`, which BECAME adjacent in
-    this call.  In the ordinary geometry (`b` elsewhere) xot does merge the three (`x`, `pbz`). -/
-theorem C05_replace_selfmerge_witness :
+/-- The former corner (`Spec.selfMergeReplace`): `replace(a, b)`.  `b` leaves: `x` and `p` are merged
+    (`p` disappears); `b`, put in the place of `a`, is merged into `x` — which now stands next to `z`,
+    and the two, having BECOME adjacent in this call, are merged as well: ONE text node `xpbz`, the
+    earliest node `x` surviving (before xot 609b613 the result held `xpb` and `z`).  In the ordinary
+    geometry (`b` elsewhere) the three nodes `p`, `b`, `z` are merged and `x`, adjacent to `p` before
+    the call, stays. -/
+example :
     selfReplaceWitness.inv = true ∧ (selfReplaceWitness.replace 4 2).2 = .ok ∧
     selfMergeReplace selfReplaceWitness 4 2 = true ∧
     (selfReplaceWitness.replace 4 2).1.content =
-      [.node (.element 2) [.node (.text ['x', 'p', 'b']) [], .node (.text ['z']) []]] ∧
-    (selfReplaceWitness.replace 4 2).1 = specReplaceK 4 2 selfReplaceWitness ∧
-    (specReplaceP 4 2 selfReplaceWitness).content = [.node (.element 2) [.node (.text ['x', 'p', 'b', 'z']) []]] ∧
-    (selfReplaceWitness.replace 4 2).1 ≠ specReplaceP 4 2 selfReplaceWitness ∧
+      [.node (.element 2) [.node (.text ['x', 'p', 'b', 'z']) []]] ∧
+    (selfReplaceWitness.replace 4 2).1.value? 1 = some (.text ['x', 'p', 'b', 'z']) ∧
+    (selfReplaceWitness.replace 4 2).1.allHandles = [0, 1] ∧
+    (selfReplaceWitness.replace 4 2).1 = specReplaceP 4 2 selfReplaceWitness ∧
+    (selfReplaceWitness.replace 4 2).1.inv = true ∧
     (let g : Forest := { selfReplaceWitness with roots := [.node 0 (.element 2) [.node 1 (.text ['x']) [],
         .node 3 (.text ['p']) [], .node 4 (.element 3) [], .node 5 (.text ['z']) []], .node 2 (.text ['b']) []] }
      (g.replace 4 2).2 = .ok ∧ selfMergeReplace g 4 2 = false ∧
      (g.replace 4 2).1.content = [.node (.element 2) [.node (.text ['x']) [], .node (.text ['p', 'b', 'z']) []]] ∧
      (g.replace 4 2).1 = specReplaceP 4 2 g) := by
   decide
-
-theorem C05_pair_replace_statement_false : ¬ C05_pair_replaceStatement := by
-  intro h
-  have := h selfReplaceWitness 4 2 ((Forest.inv_iff _).1 (by decide)) (by decide)
-  exact absurd this (by decide)
 
 /-- Non-vacuity on a forest WITH adjacent text nodes: `<e>w x <u>i j<k/>m</u> y z <v/></e>` and a
     parentless text `r`.  `element_unwrap(u)` merges exactly `(x, i)` and `(m, y)` — `w`, `j`, `z` stay;
